@@ -226,10 +226,19 @@ func runBatch(rep *vh.Report, r *vh.RNG, name string, nDialects int, st *c18stat
 			rep.Count("generated_twice_identical", 1)
 		}
 	}
-	pr, err := buildAndProbe(filepath.Join(base, "mod"), gens, vh.Seed(), vh.Pick(60, 1500))
+	kinds := map[string]bool{}
+	for i, top := range b.Tops {
+		for name, xe := range b.expect(top).Enums {
+			kinds[gens[i].PkgName+"."+name] = xe.Bitmask
+		}
+	}
+	pr, err := buildAndProbe(filepath.Join(base, "mod"), gens, vh.Seed(), vh.Pick(60, 1500), kinds)
 	if err != nil {
 		rep.HarnessError(err.Error())
 		return
+	}
+	for _, km := range pr.KindMismatch {
+		rep.Violation("what=enum-kind", "an enum is generated as the other kind (bitmask / ordinary) than its definition (all files of the include closure taken together) declares", km)
 	}
 	for i, top := range b.Tops {
 		if compare {
